@@ -36,12 +36,15 @@ def rendered(rng, R, canonical=False):
 
 
 def no_d7(rng, R):
-    """a layout outside the D7 class: whitespace between a '===' clause and a following comma"""
-    for _ in range(50):
-        s, lay, mt = rendered(rng, R)
-        if not G.d7_class(R, lay): return s, lay, mt
-    R["clauses"] = [c for c in R["clauses"] if c[0] != "==="]
-    return rendered(rng, R)
+    """a layout outside the D7 class: whitespace between every '===' clause and a following comma (the structure is never changed)"""
+    s, lay, mt = rendered(rng, R)
+    if G.d7_class(R, lay):
+        cl = R["clauses"]
+        for i in range(len(cl) - 1):
+            if cl[i][0] == "===" and lay["cw"][i][1] == "":
+                lay["cw"][i] = (lay["cw"][i][0], rng.choice([" ", "\t", "  "]))
+        s = G.render(R, lay, mt)
+    return s, lay, mt
 
 
 def eq_pair(rng):
